@@ -13,36 +13,61 @@ NearNm(A, B, tol) ==
   IF d > 1 \/ d < -1 THEN FALSE
   ELSE LET e == d * 1000000000 + A[2] - B[2] IN e <= tol /\ -e <= tol
 
+\* setzone omitted: "If omitted, use the standard rules for picking the zone"
+SzDefaultOK(r) == r.dout = "ok" /\ r.dzone = StdZone(r.lat, r.lon, STANDARD)[2]
 SzOK(r) ==
   LET x == StdZone(r.lat, r.lon, r.s) IN
-  IF x[1] = "throw" THEN r.out = "throw" ELSE r.out = "ok" /\ r.zone = x[2]
+  /\ IF x[1] = "throw" THEN r.out = "throw" ELSE r.out = "ok" /\ r.zone = x[2]
+  /\ SzDefaultOK(r)
 
+\* the reported scale (units of 1e-9, rounded) where it equals the central scale factor: a UTM point exactly on the central
+\* meridian of its zone (any latitude), a UPS point exactly at the pole.  Round-off of k (1e-16) cannot move the rounded value.
+K0OK(r, ez) ==
+  LET utmp == ez > 0 IN
+  /\ (utmp /\ r.lon[2] = 0 /\ LonDeg(r.lon) = CentralMeridian(ez) => r.kq = K0e9(TRUE))
+  /\ (~utmp /\ r.lat \in {<<90, 0>>, <<-90, 0>>} => r.kq = K0e9(FALSE))
+\* Forward with arguments omitted: the overload without gamma, k (same setzone, mgrslimits) gives the same outcome (ov);
+\* mgrslimits omitted = false and setzone omitted = STANDARD in both overloads (dflt: omitted == passed explicitly, bit for bit);
+\* and the zone of the call with both omitted is the STANDARD zone of the specification.
+FwdDefaultOK(r) ==
+  /\ r.ov /\ r.dflt
+  /\ IF LatBad(r.lat) THEN r.dout = "throw" ELSE (r.dout = "ok" => r.dzone = StdZone(r.lat, r.lon, STANDARD)[2])
+  /\ (r.s = STANDARD /\ ~r.m => r.dout = r.out /\ (r.out = "ok" => r.dzone = r.zone))
 FwdOK(r) ==
   LET sz == StdZone(r.lat, r.lon, r.s) IN
-  IF LatBad(r.lat) \/ sz[1] = "throw" THEN r.out = "throw" /\ r.untouched
-  ELSE IF sz[2] = INVALID THEN r.out = "ok" /\ r.zone = INVALID
-  ELSE
-    LET ez == sz[2]  np == Northp(r.lat)  utmp == ez > 0
-        X == AddKm(r.tx, FalseEastingKm(utmp))
-        Y == AddKm(r.ty, FalseNorthingKm(utmp, np))
-        cl == RectClass(utmp, np, r.m, X, Y, TolEdge)
-        good == r.out = "ok" /\ r.zone = ez /\ r.northp = np /\ NearNm(r.x, X, 2) /\ NearNm(r.y, Y, 2) /\ r.gkeq
-        bad == r.out = "throw" /\ r.untouched
-    IN r.hd /\ CASE cl = "in" -> good [] cl = "out" -> bad [] OTHER -> good \/ bad
+  /\ FwdDefaultOK(r)
+  /\ IF LatBad(r.lat) \/ sz[1] = "throw" THEN r.out = "throw" /\ r.untouched
+     ELSE IF sz[2] = INVALID THEN r.out = "ok" /\ r.zone = INVALID
+     ELSE
+       LET ez == sz[2]  np == Northp(r.lat)  utmp == ez > 0
+           X == AddKm(r.tx, FalseEastingKm(utmp))
+           Y == AddKm(r.ty, FalseNorthingKm(utmp, np))
+           cl == RectClass(utmp, np, r.m, X, Y, TolEdge)
+           good == r.out = "ok" /\ r.zone = ez /\ r.northp = np /\ NearNm(r.x, X, 2) /\ NearNm(r.y, Y, 2) /\ r.gkeq /\ K0OK(r, ez)
+           bad == r.out = "throw" /\ r.untouched
+       IN r.hd /\ CASE cl = "in" -> good [] cl = "out" -> bad [] OTHER -> good \/ bad
 
+\* ov: the overload without gamma, k, same mgrslimits, same outcome; dflt: mgrslimits omitted == false passed explicitly;
+\* dout: outcome class of the call with mgrslimits omitted, which is the specification's for the wide rectangle
 RevOK(r) ==
   LET x == Reverse(r.z, r.n, r.x, r.y, r.m) IN
-  CASE x[1] = "ok" -> r.out = "ok" /\ r.range
-    [] x[1] = "throw" -> r.out = "throw" /\ r.untouched
-    [] x[1] = "nan" -> r.out = "nan"
+  /\ r.ov /\ r.dflt /\ r.dout = Reverse(r.z, r.n, r.x, r.y, FALSE)[1]
+  /\ CASE x[1] = "ok" -> r.out = "ok" /\ r.range
+       [] x[1] = "throw" -> r.out = "throw" /\ r.untouched
+       [] x[1] = "nan" -> r.out = "nan"
 
 ZsOK(r) ==
   LET x == DecodeZone(r.code) IN
   IF x[1] = "throw" THEN r.out = "throw" /\ r.untouched
   ELSE r.out = "ok" /\ r.zone = x[2] /\ r.northp = x[3]
+\* out2/z2/n2: the library's own string decoded by the library ("This reverses UTMUPS::DecodeZone");
+\* dout/dcode: abbrev omitted = true
 ZeOK(r) ==
-  LET x == EncodeZone(r.z, r.n, r.a) IN
-  IF x[1] = "throw" THEN r.out = "throw" ELSE r.out = "ok" /\ r.code = x[2]
+  LET x == EncodeZone(r.z, r.n, r.a)
+      d == EncodeZone(r.z, r.n, TRUE) IN
+  /\ IF x[1] = "throw" THEN r.out = "throw"
+     ELSE r.out = "ok" /\ r.code = x[2] /\ r.out2 = "ok" /\ r.z2 = r.z /\ (r.z # INVALID => r.n2 = r.n)
+  /\ IF d[1] = "throw" THEN r.dout = "throw" ELSE r.dout = "ok" /\ r.dcode = d[2]
 EpsgdOK(r) == LET x == DecodeEPSG(r.epsg) IN r.out = "ok" /\ r.zone = x[1] /\ r.northp = x[2]
 EpsgeOK(r) == r.out = "ok" /\ r.epsg = EncodeEPSG(r.z, r.n)
 
@@ -71,9 +96,29 @@ GrOK(r) ==
 TrOK(r) ==
   /\ r.f0 = "ok"
   /\ r.out = r.ref
-  /\ (r.out = "ok" => r.zo = r.zr /\ r.err >= 0 /\ r.err <= TolRT /\ (r.zout >= 0 => r.zo = r.zout))
+  /\ (r.out = "ok" => r.zo = r.zr /\ r.err >= 0 /\ r.err <= TolRT /\ (r.zout >= 0 => r.zo = r.zout)
+                       /\ (r.zout = MATCH => r.zo = r.zin))          \* MATCH: "the coordinate already includes zone information, use that"
   /\ (r.out = "throw" => r.untouched)
   /\ r.out \in {"ok", "throw"}
+
+\* lattice Transfer (see MC_UTMUPS!VecTr): zone exactly (set TransferZones), UPS never changes hemisphere, outputs
+\* untouched on a throw, coordinates equal Reverse then Forward in the output zone to the closure tolerance.
+\* ref/hm/zr/err: the driver's Reverse o Forward(setzone = zr) with zr = the specification's zone (r.ez, recomputed here)
+\* or, on a zone edge, the zone returned; hm = that point is a UPS point of the hemisphere opposite to nout.
+TrlOK(r) ==
+  IF r.f0 # "ok" THEN r.f0 = "throw" /\ r.out = "none"    \* the point has no coordinates in zone sin: nothing to transfer
+  ELSE
+    /\ r.zin = r.sin
+    /\ IF r.zout < -4 \/ r.zout > 60 THEN r.out = "throw" /\ r.untouched
+       ELSE IF r.zout = INVALID THEN r.out = "ok" /\ r.zo = INVALID
+       ELSE LET Z == TransferZones(r.zin, r.zout, r.lat, r.lon)
+                one == Cardinality(Z) = 1
+            IN /\ (IF one THEN r.ez \in Z ELSE r.ez = -99)
+               /\ r.out \in {"ok", "throw"}
+               /\ (r.out = "ok" => /\ r.zo \in Z /\ r.zr = r.zo
+                                   /\ (r.zo = UPS => r.nout = Northp(r.lat))
+                                   /\ r.ref = "ok" /\ ~r.hm /\ r.err >= 0 /\ r.err <= TolRT)
+               /\ (r.out = "throw" => r.untouched /\ (one => r.ref = "throw" \/ r.hm))
 
 NanfOK(r) == r.out = "ok" /\ (IF r.w = 0 THEN r.zone # INVALID /\ ~r.allnan ELSE r.zone = INVALID /\ r.allnan)
 NanrOK(r) == r.out = "ok" /\ r.allnan
@@ -81,7 +126,7 @@ NanrOK(r) == r.out = "ok" /\ r.allnan
 Obligation(r) ==
   CASE r.e = "sz" -> SzOK(r) [] r.e = "fwd" -> FwdOK(r) [] r.e = "rev" -> RevOK(r)
     [] r.e = "zs" -> ZsOK(r) [] r.e = "ze" -> ZeOK(r) [] r.e = "epsgd" -> EpsgdOK(r) [] r.e = "epsge" -> EpsgeOK(r)
-    [] r.e = "rt" -> RtOK(r) [] r.e = "gr" -> GrOK(r) [] r.e = "tr" -> TrOK(r)
+    [] r.e = "rt" -> RtOK(r) [] r.e = "gr" -> GrOK(r) [] r.e = "tr" -> TrOK(r) [] r.e = "trl" -> TrlOK(r)
     [] r.e = "nanf" -> NanfOK(r) [] r.e = "nanr" -> NanrOK(r)
     [] OTHER -> FALSE
 
@@ -91,6 +136,7 @@ Expected(r) ==
     [] r.e = "rev" -> Reverse(r.z, r.n, r.x, r.y, r.m)
     [] r.e = "zs" -> DecodeZone(r.code)
     [] r.e = "ze" -> EncodeZone(r.z, r.n, r.a)
+    [] r.e = "trl" -> IF r.zout < -4 \/ r.zout > 60 THEN <<"throw">> ELSE <<"zones", TransferZones(r.sin, r.zout, r.lat, r.lon)>>
     [] OTHER -> <<>>
 
 Init == l = 1 /\ KitInit
